@@ -573,7 +573,7 @@ func (s *SymDense) SubsetSym(a Symmetric, set []int) {
 // The returned matrix starts at {i,i} of the receiver and extends k-i rows
 // and columns. The final row and column in the resulting matrix is k-1.
 // SliceSym panics with ErrIndexOutOfRange if the slice is outside the
-// capacity of the receiver.
+// capacity of the receiver and with ErrZeroLength if k equals i.
 func (s *SymDense) SliceSym(i, k int) Symmetric {
 	return s.sliceSym(i, k)
 }
@@ -582,6 +582,9 @@ func (s *SymDense) sliceSym(i, k int) *SymDense {
 	sz := s.cap
 	if i < 0 || sz < i || k < i || sz < k {
 		panic(ErrIndexOutOfRange)
+	}
+	if i == k {
+		panic(ErrZeroLength)
 	}
 	v := *s
 	v.mat.Data = s.mat.Data[i*s.mat.Stride+i : (k-1)*s.mat.Stride+k]
